@@ -2,7 +2,7 @@
    Model: Model/Ref.v (Target.Matches, Targets.Match, Origins.Match, InnermostAtPos, AtPos and the two
    decoder lookups over a world of paths), compared with the exported functions on every run. *)
 From Coq Require Import String List ZArith Bool.
-From HV Require Import Base.Pos Model.Addr Model.Schema Model.Ref Proofs.RefProofs.
+From HV Require Import Base.Pos Model.Addr Model.Schema Model.Ref Proofs.RefProofs Proofs.InverseProofs.
 
 (* origins that point into another path resolve against that path's declarations, local origins
    against their own path, direct origins are passed through unchanged *)
@@ -35,3 +35,44 @@ Theorem C11_local_names_do_not_leak : forall conv t a cs r fr,
   exists a', addr_equals (t_addr t) a' = true.
 Proof. exact local_names_do_not_leak. Qed.
 Print Assumptions C11_local_names_do_not_leak.
+
+(* the inverse, go-to-definition => find-references: if the resolution of an origin contains a
+   declaration t, then find-references at any position whose innermost declaration is t lists that
+   origin's place - for origins of the same path ... *)
+Theorem C11_gotodef_implies_findrefs_local : forall conv w p own file x a r cs t,
+  find_path w p = Some own ->
+  In (OLocal a r cs) (pc_origins own) ->
+  In t (targets_match conv (pc_targets own) a cs r) ->
+  In t (innermost_at_pos (S (forest_depth (pc_targets own))) (pc_targets own) file x) ->
+  In (pc_path own, r) (origins_targeting_pos conv w p file x).
+Proof. exact gotodef_findrefs_local. Qed.
+Print Assumptions C11_gotodef_implies_findrefs_local.
+
+(* ... and for origins of any readable path that point into the queried one *)
+Theorem C11_gotodef_implies_findrefs_other_path : forall conv w c own file x a r tp cs t,
+  In c w -> pc_ok c = true ->
+  In (OPath r a tp cs) (pc_origins c) ->
+  find_path w tp = Some own ->
+  In t (targets_match conv (pc_targets own) a cs r) ->
+  In t (innermost_at_pos (S (forest_depth (pc_targets own))) (pc_targets own) file x) ->
+  In (pc_path c, r) (origins_targeting_pos conv w tp file x).
+Proof. exact gotodef_findrefs_path. Qed.
+Print Assumptions C11_gotodef_implies_findrefs_other_path.
+
+(* find-references => go-to-definition: every listed place holds an origin of a readable path that
+   points into the queried path and whose resolution contains the innermost declaration at the
+   position or one nested in it; direct origins are never listed *)
+Theorem C11_findrefs_implies_gotodef : forall conv w p own file x pp r,
+  find_path w p = Some own ->
+  In (pp, r) (origins_targeting_pos conv w p file x) ->
+  exists c o t t',
+    In c w /\ pc_ok c = true /\ pc_path c = pp /\ In o (pc_origins c) /\ o_range o = r /\
+    In t (innermost_at_pos (S (forest_depth (pc_targets own))) (pc_targets own) file x) /\
+    (t' = t \/ deep_mem t' (t_nested t)) /\
+    match o with
+    | OLocal a _ cs => pp = p /\ In t' (targets_match conv (pc_targets own) a cs r)
+    | OPath _ a tp cs => tp = p /\ In t' (targets_match conv (pc_targets own) a cs r)
+    | ODirect _ _ _ => False
+    end.
+Proof. exact findrefs_gotodef. Qed.
+Print Assumptions C11_findrefs_implies_gotodef.
